@@ -1017,7 +1017,8 @@ class System(BaseModel, Serializable):
             if np.all(list(is_computed.values())):
                 break  # Exit early if all selected return qois are computed
 
-            scc = [n for n in dag.nodes[supernode]['members']]
+            members = dag.nodes[supernode]['members']  # a set of names: iterate in listing order, not hash order
+            scc = [comp.name for comp in self.components if comp.name in members]
             samples.reset_convergence()
 
             # A sample is valid for these components if none of the inputs they consume is NaN (a NaN produced by an
